@@ -24,6 +24,8 @@ func init() {
 			c.run("C12-K2", "TYPESTATE: a function that calls recover() is only ever deferred", recoverOnlyDeferred)
 			c.run("C12-S2", "shared with C20-R7: counts handed to Grow / Repeat while rendering cannot be negative", c20R7)
 			c.run("C12-U", "GUARD-DOM: the escape decoder never writes past / into an empty output buffer", c12Unescape)
+			c.run("C12-W", "GUARD-DOM: slice bounds of the encoder's chunk writer are its buffer's own free space", c12WriterSpace)
+			c.run("C12-S3", "shared with C19-R7: the zmodem helper is announced only once it runs (an announced command without a process is killed through a nil Process)", c19Bridge)
 			c.run("C12-N2", "GUARD-DOM: results that may be nil without an error are used only after a nil test", c12NilableResults)
 			c.run("C12-D3", "TYPESTATE: a pointer field a callee may clear is not dereferenced after the call without a new test", c12NilAfterCall)
 			c.run("C12-D", "CONTRADICTION: no dereference / interface call on the edge where the same value was just found nil", c12NilContradiction)
